@@ -720,7 +720,7 @@ def run(check: core.Check) -> None:
     )
     # S->C replay, adjudicated by TLC
     limit = 20000 if quick else 300000
-    fam_limit = 6000 if quick else 150000
+    fam_limit = 6000 if quick else 60000
     probes = [c for c in cases if _is_probe(c) or core.canon(c) in dense_keys]  # always replayed
     others = [c for c in cases if not (_is_probe(c) or core.canon(c) in dense_keys)]
     # generated bodies of the condition families: their own replay budget, whole evaluators, seeded
@@ -841,14 +841,14 @@ def selftest_family(check: core.Check, cases: list[dict]) -> None:
 
     for o in obs:
         vs = clean.get(o["tid"], [])
-        if any(not v.startswith("dev:version-check-invalid-rhs") for v in vs) or o["real"]["status"] != "ok":
-            continue  # only observations that are plainly fine (or only carry the ordinary-code class)
+        if vs or o["real"]["status"] != "ok":
+            continue  # only observations that are plainly fine
         atom = all_atoms(o["case"]["lines"][0]["c"])[0]
         for k in [(len(corrupted) + d) % 5 for d in range(5)]:
             r = dict(o["real"])
             if k == 0 and r["rej"] and atom["k"] != "platsw":
                 r["rej"], clause = [], "viol:InvalidConditionNotRejected"
-            elif k == 1 and not r["rej"] and not vs and plainly_valid(atom):
+            elif k == 1 and not r["rej"] and plainly_valid(atom):
                 r["rej"], clause = ["bad_evaluator: made up"], "viol:ValidConditionRejected"
             elif k == 2:
                 r["status"], clause = "exception", "viol:CheckerRaised"
